@@ -37,6 +37,7 @@ func init() {
 			func(bc binClosure) bool { return bc.fb.Decl != nil && bc.fb.Decl.Name.Name == "Dual" }, 25)
 		Rel(c, "R-REL", []*packages.Package{c.Pkg("monoid"), c.Pkg("semigroup")}, anyDecl, instanceParam, 200)
 		NoSwap(c, "R-NOSWAP", []*packages.Package{c.Pkg("monoid"), c.Pkg("semigroup")})
+		EmptyUsed(c, "R-EMPTYUSED", []*packages.Package{c.Pkg("monoid"), c.Pkg("fp")})
 		PureCombine(c, "R-PURE-COMBINE", []*packages.Package{c.Pkg("monoid"), c.Pkg("semigroup")}, 3)
 	})
 }
